@@ -90,7 +90,7 @@ def run_check(pid, tier, seed, args):
             # count what still holds: nothing is claimed discharged for a failing build
             proof['bad'].append('lake build failed')
         else:
-            hits = common.grep_forbidden()
+            hits = common.grep_forbidden(modules)
             if hits:
                 proof['bad'].append(f'forbidden constructs: {hits[:5]}')
             thms = common.lean_audit(modules, namespaces)
